@@ -549,6 +549,7 @@ class Observer:
                 if name != "MemoryCopyElisionPass":
                     try:
                         rec["roles"], rec["recheck"] = invoke_roles(self_, fn, before)
+                        rec["callees"] = getattr(self_, "_c14c_callees", {})
                         annotate(before, after, rec["roles"], fill=(name == "InternalReturnCopyForwardingPass"))
                     except Exception as e:  # noqa
                         rec["export_error"] = f"{type(e).__name__}: {e}"
@@ -603,6 +604,42 @@ def readonly_recheck(callee, idx, claimed):
     return None
 
 
+RID = 990000
+
+
+def callee_snap(callee, k, claimed):
+    """the callee body for RoCheck.ro_check: the `param` of user parameter k becomes `alloca` of the fresh identity RID + k (the
+    caller's buffer seen as an allocation); invoke operands are annotated Some (OLit 0) at read-only positions, Some (OLab 0) at
+    return-buffer positions"""
+    from vyper.venom.call_layout import FunctionCallLayout, InvokeLayout
+    sn = Snap(callee)
+    pv = sn.v(FunctionCallLayout(callee).user_params[k].output)
+    blocks = list(callee.get_basic_blocks())
+    if blocks and blocks[0] is not callee.entry:
+        blocks.remove(callee.entry)
+        blocks.insert(0, callee.entry)
+    for bi, bb in enumerate(blocks):
+        for j, ins in enumerate(bb.instructions):
+            op, ops, outs, wm, wrd, aid = sn.blocks[bi][j]
+            if op == "param" and outs == [pv]:
+                sn.blocks[bi][j] = ("alloca", [("lit", 0)], outs, False, False, RID + k)
+                sn.names["alloca"][pv] = RID + k
+            if op == "invoke":
+                lay = InvokeLayout(callee.ctx, ins)
+                c2, rpos = lay.callee, lay.return_buffer_operand_pos
+                ann = []
+                for pos in range(len(ins.operands)):
+                    kk = lay.user_arg_index(pos)
+                    if pos == rpos and rpos is not None:
+                        ann.append(("lab", 0))
+                    elif pos != 0 and kk is not None and c2 is not None and kk in claimed.get(c2, ()):
+                        ann.append(("lit", 0))
+                    else:
+                        ann.append(None)
+                sn.ann[(bi, j)] = ann
+    return sn, RID + k
+
+
 def invoke_roles(pass_obj, fn, before):
     """per invoke of fn (positions are stable across the pass): callee name and, per operand, 'ro' / 'rw' / 'ret' / 'other';
     the read-only facts come from the pass's own ReadonlyMemoryArgsGlobalAnalysis and are re-checked on the callee bodies"""
@@ -614,6 +651,7 @@ def invoke_roles(pass_obj, fn, before):
         blocks.remove(fn.entry)
         blocks.insert(0, fn.entry)
     roles, recheck = {}, {}
+    pass_obj._c14c_callees = {}
     for bi, bb in enumerate(blocks):
         for j, ins in enumerate(bb.instructions):
             if ins.opcode != "invoke":
@@ -633,6 +671,10 @@ def invoke_roles(pass_obj, fn, before):
                     key = (str(callee.name), k)
                     if key not in recheck:
                         recheck[key] = readonly_recheck(callee, k, claimed)
+                        try:
+                            pass_obj._c14c_callees[key] = callee_snap(callee, k, claimed)
+                        except Exception as e:  # noqa
+                            pass_obj._c14c_callees[key] = f"{type(e).__name__}: {e}"
                 else:
                     rl.append("rw")
             roles[(bi, j)] = (str(callee.name) if callee is not None else None, rl,
@@ -851,9 +893,9 @@ def key_of(rec):
     return hashlib.sha1((rec["pass"] + rec["before"].text + "\n=>\n" + rec["after"].text).encode()).hexdigest()[:16]
 
 
-COQ_IMPORTS = "From Verif Require Import C14C.CopySem C14C.CopyCheck C14C.DeadCheck C14C.IRCheck.\nOpen Scope string_scope.\n"
-MODEL_FILES = ["C14C/CopySem.v", "C14C/CopyCheck.v", "C14C/DeadCheck.v", "C14C/IRCheck.v"]
-PROOF_FILES = ["C14C/CopySound1.v", "C14C/CopySound2.v", "C14C/CopySound3.v", "C14C/CopySound4.v", "C14C/CopySound.v", "C14C/PropsCopy.v", "C14C/DeadSound.v", "C14C/PropsDead.v", "C14C/IRSound.v", "C14C/PropsIR.v"]
+COQ_IMPORTS = "From Verif Require Import C14C.CopySem C14C.CopyCheck C14C.DeadCheck C14C.IRCheck C14C.RoCheck.\nOpen Scope string_scope.\n"
+MODEL_FILES = ["C14C/CopySem.v", "C14C/CopyCheck.v", "C14C/DeadCheck.v", "C14C/IRCheck.v", "C14C/RoCheck.v"]
+PROOF_FILES = ["C14C/CopySound1.v", "C14C/CopySound2.v", "C14C/CopySound3.v", "C14C/CopySound4.v", "C14C/CopySound.v", "C14C/PropsCopy.v", "C14C/DeadSound.v", "C14C/PropsDead.v", "C14C/IRSound.v", "C14C/PropsIR.v", "C14C/RoSound.v", "C14C/PropsRo.v"]
 
 
 def evaluate(recs, name="c14c", rounds=8):
@@ -880,6 +922,8 @@ def evaluate(recs, name="c14c", rounds=8):
                 if st[0] == "cf":
                     a_, b_ = nm(st[1]), nm(st[2])
                     checks.append(f"(if check_func C (infer_entry C {a_} {max(rounds, len(st[1].blocks) + 1)}) {a_} {b_} then 1 else 0)")
+                elif st[0] == "ro":
+                    checks.append(f"(if ro_check C [{st[2]}] {nm(st[1])} then 1 else 0)")
                 elif st[0] == "dead":
                     checks.append(f"(if dead_check C [{'; '.join(str(d) for d in st[3])}] {nm(st[1])} {nm(st[2])} then 1 else 0)")
                 else:
@@ -1005,7 +1049,7 @@ def part_copy_passes(ctx):
         rest = [r for r in recs if r["context"][0] not in own_]
         recs = head + rnd.sample(rest, min(len(rest), 5))
         stats["evaluated_in_quick"] = len(recs)
-    todo, verdict = [], {}
+    todo, verdict, ro_items = [], {}, {}
     RO, IR = "ReadonlyInvokeArgCopyForwardingPass", "InternalReturnCopyForwardingPass"
     for i, r in enumerate(recs):
         why = None
@@ -1029,6 +1073,12 @@ def part_copy_passes(ctx):
                     used |= {(callee, ks[pos]) for pos, (o, o2) in enumerate(zip(x[1], y[1])) if o != o2}
             r["recheck_bad"] = {k: v for k, v in r.get("recheck", {}).items() if v and k in used}
             r["recheck_used"] = len(used)
+            for k in sorted(used, key=str):
+                cs = r.get("callees", {}).get(k)
+                if isinstance(cs, tuple):
+                    ro_items.setdefault(hashlib.sha1((cs[0].text + str(cs[1])).encode()).hexdigest(), {"snap": cs, "recs": []})["recs"].append((r, k))
+                else:
+                    r["recheck_bad"][k] = r["recheck_bad"].get(k) or f"callee body not exported: {cs}"
             if changes(r) is None:
                 why = "block structure changed"
         elif r["pass"] == IR:
@@ -1043,6 +1093,14 @@ def part_copy_passes(ctx):
             stats["unsupported_reasons"][why] = stats["unsupported_reasons"].get(why, 0) + 1
     if todo and (COQ / "C14C" / "CopyCheck.vo").exists():
         try:
+            # the read-only facts relied upon, on the callee bodies: RoCheck.ro_check (ro_body_sound)
+            items = list(ro_items.values())
+            ro_out = evaluate([{"before": it["snap"][0], "after": it["snap"][0], "steps": [("ro", it["snap"][0], it["snap"][1])]} for it in items], name="c14c_ro")
+            stats["ro_check"] = {"bodies": len(items), "accepted": sum(1 for o in ro_out if o and o[0] == 1)}
+            for it, o in zip(items, ro_out):
+                if not o or o[0] != 1:
+                    for r_, k_ in it["recs"]:
+                        r_["recheck_bad"][k_] = (r_["recheck_bad"].get(k_) or "") + " [ro_check (Gallina) rejects the callee body]"
             outs = evaluate([recs[i]["pair"] for i in todo])
             for i, o in zip(todo, outs):
                 r = recs[i]
@@ -1073,7 +1131,8 @@ def part_copy_passes(ctx):
         except RuntimeError as e:
             ctx.violation("correspondence-broken", "check_func could not be evaluated on the exported invocations", {"error": str(e)[-1500:]})
     stats["validated_by"] = {"MemoryCopyElisionPass": "check_func (copyfwd_check_sound)", RO: "check_func rule R4 (copyfwd_check_sound under ro_uniform) + "
-                             "dead_check (dead_copy_sound under oracle_local) + readonly_recheck (syntactic, unverified)", IR: "internal_return_check (Python) as a pre-filter, then ir_check (internal_return_sound under oracle_ren, bounded "
+                             "dead_check (dead_copy_sound under oracle_local) + ro_check on the callee bodies (ro_body_sound: the callee never writes "
+                             "the argument; readonly_recheck in Python gives the reason)", IR: "internal_return_check (Python) as a pre-filter, then ir_check (internal_return_sound under oracle_ren, bounded "
                              "semantics); chains of forwarded copies via check_func R1 + dead_check + ir_check"}
     stats["readonly_facts_rechecked"] = sum(r.get("recheck_used", 0) for r in recs)
     t2 = time.time()
@@ -1122,6 +1181,7 @@ def part_copy_passes(ctx):
                                                                                      "coq_output": b["out"][-1500:]})
     stats["seconds"] = {"build+compile": round(t1 - t0, 1), "check_func": round(t2 - t1, 1), "total": round(time.time() - t0, 1)}
     ctx.corr["copy_passes"] = stats
+    ctx.log(f"  c14c: verdicts {stats['verdicts']} unsupported {stats['unsupported_reasons']} ro_check {stats.get('ro_check')} seconds {stats['seconds']}")
     acc = [r for i, r in enumerate(recs) if verdict.get(i) == "accepted"]
     if acc:
         ch = changes(acc[0])
